@@ -382,14 +382,21 @@ pub fn extract_word(
         return (0, line);
     }
     let mut start = None;
+    // length of the run of `esc_char`s seen so far just before `start`
+    let mut escapes = 0;
     for (i, c) in line.char_indices().rev() {
         if let (Some(esc_char), true) = (esc_char, start.is_some()) {
             if esc_char == c {
-                // escaped break char
-                start = None;
+                escapes += 1;
                 continue;
             }
-            break;
+            if escapes % 2 == 0 {
+                // the `esc_char`s (if any) escape each other, not the break char
+                break;
+            }
+            // escaped break char
+            start = None;
+            escapes = 0;
         }
         if is_break_char(c) {
             start = Some(i + c.len_utf8());
@@ -397,6 +404,10 @@ pub fn extract_word(
                 break;
             } // else maybe escaped...
         }
+    }
+    if escapes % 2 == 1 {
+        // escaped break char, the run of `esc_char`s starts the line
+        start = None;
     }
 
     match start {
